@@ -135,7 +135,7 @@ def run(ctx):
     gl = 14
     gc = {"MaxSegW": 5, "MaxQW": 14, "Words": {1, 2, 5}, "SegSizes": {3, 5}, "MaxBlocks": 8, "BufT": 2, "MaxTok": 2,
           "Apps": ["a1"], "Dev": ['"ackBeforeDurable"'], "MaxSegId": 99, "MaxSent": 99, "GenLen": gl}
-    num = ctx.pick(300, 3000)
+    num = ctx.pick(200, 3000)
     if ctx.replay:
         rp = json.load(open(ctx.replay))["replay"]
         inp = {"consts": rp.get("consts"), "behaviours": [rp.get("behaviour")]}
@@ -143,6 +143,12 @@ def run(ctx):
         ctx.write_cfg(sd, "GenQ.cfg", "GSpecQ", gc, extra="INVARIANT Emit")
         behs = ctx.tlc_generate(sd, "HHQueueGen", "GenQ.cfg", num=num, depth=gl + 1)[:num * 3]
         inp = {"consts": {k: v for k, v in gc.items() if isinstance(v, int)}, "behaviours": behs}
+        # rollover-heavy behaviours: one block per segment, more than ten segments, close/reopen in between
+        gr = dict(gc, MaxSegW=3, MaxQW=200, Words={1, 2}, SegSizes={3}, MaxBlocks=14, GenLen=22)
+        ctx.write_cfg(sd, "GenR.cfg", "GSpecQ", gr, extra="INVARIANT Emit")
+        nr = ctx.pick(40, 400)
+        behs_r = ctx.tlc_generate(sd, "HHQueueGen", "GenR.cfg", num=nr, depth=23)[:nr]
+        inp_r = {"consts": {k: v for k, v in gr.items() if isinstance(v, int)}, "behaviours": behs_r}
     def run_q(inp, label):
         p = ctx.write_json("behQ-%s.json" % label, inp)
         return ctx.go_test(PKG, FILES, "^TestVerifHHReplayQ$", env={"VERIF_IN": p}, timeout=1200, label=label)
@@ -153,6 +159,11 @@ def run(ctx):
     if not ctx.replay or json.load(open(ctx.replay))["replay"].get("test") == "Q":
         recs, out, rc = run_q(inp, "replay")
         done = ctx.process(recs, out, rc, "TestVerifHHReplayQ", confirm)
+        if not ctx.replay:
+            recs, out, rc = run_q(inp_r, "replay-rollover")
+            done_r = ctx.process(recs, out, rc, "TestVerifHHReplayQ", confirm)
+            for k in ("behaviours", "steps", "crash_images_recovered"):
+                done[k] = done.get(k, 0) + done_r.get(k, 0)
     ctx.cov["traces_validated_against_impl"] += done.get("behaviours", 0)
     # 2b. processor level: behaviours of the queue under SendWrite, replayed on the real NodeProcessor; stress
     if not ctx.replay or json.load(open(ctx.replay))["replay"].get("test") == "P":
